@@ -17,11 +17,12 @@ mod s_lex;
 mod memreader;
 mod s_parse;
 mod s_cfg;
+mod s_yaml;
 
 pub type Handler = fn(&[&str]) -> String;
 
 fn dispatch(cmd: &str) -> Option<Handler> {
-    s_basic::dispatch(cmd).or_else(|| s_lex::dispatch(cmd)).or_else(|| s_parse::dispatch(cmd)).or_else(|| s_cfg::dispatch(cmd))
+    s_basic::dispatch(cmd).or_else(|| s_lex::dispatch(cmd)).or_else(|| s_parse::dispatch(cmd)).or_else(|| s_cfg::dispatch(cmd)).or_else(|| s_yaml::dispatch(cmd))
 }
 
 fn main() {
